@@ -507,3 +507,24 @@ def capture_calls(it, dom, f, kwargs, callees, result, self_obj=None):
     finally:
         dom.call_prysm = orig
     return paths, calls
+
+
+def descending_sweep(it, dom, iter_node, frame):
+    """(first index, last index) of a loop that walks indices downwards, for the spellings range(a, b, -1),
+    reversed(range(n)) and reversed(range(lo, hi)); None if the iterable is none of these."""
+    from ..core.norm import Rat
+    one = Rat(dom.R.const(1))
+    if isinstance(iter_node, ast.Call) and ast.unparse(iter_node.func) == 'range' and len(iter_node.args) == 3:
+        a, b, st = [dom.rat(it.ev(x, frame)) for x in iter_node.args]
+        if a is None or b is None or st is None or st != -one:
+            return None
+        return a, b + 1
+    if isinstance(iter_node, ast.Call) and ast.unparse(iter_node.func) == 'reversed' and len(iter_node.args) == 1:
+        r = iter_node.args[0]
+        if isinstance(r, ast.Call) and ast.unparse(r.func) == 'range' and len(r.args) in (1, 2):
+            vals = [dom.rat(it.ev(x, frame)) for x in r.args]
+            if any(v is None for v in vals):
+                return None
+            lo, hi = (Rat(dom.R.const(0)), vals[0]) if len(vals) == 1 else vals
+            return hi - 1, lo
+    return None
